@@ -167,6 +167,10 @@ def exec_owner(case, out):
     depth = case["depth"]
     f = proj.build_fiber(case["tree"], default=case["fdflt"], shape=[case["fshape"]] * depth)
     f.getRankAttrs().setId("OWN")
+    if case.get("touch"):
+        # the fiber is used on its own first (active range queried, iterated): whatever it remembers from then must give way to its rank's attributes
+        _ = f.getActive()
+        _ = [c for c, _ in f.iterActive()]
     if case["how"] == "fromFiber":
         t = Tensor.fromFiber(rank_ids=IDS[:depth], fiber=f, shape=[case["tshape"]] * depth, default=case["tdflt"])
     else:
@@ -181,6 +185,8 @@ def exec_owner(case, out):
     out["maxcoord"] = max([c for c in root.coords if isinstance(c, int)] + [-1])
     out["after_rid"] = str(root.getRankAttrs().getId())
     out["rank_rid"] = str(t.ranks[0].getId())
+    act = root.getActive()
+    out["after_act"] = [int(act[0]), int(act[1])]
     out["after_shape"] = root.getShape(all_ranks=False)
     out["rank_shape"] = t.ranks[0].getShape(all_ranks=False)
     d1 = Payload.get(leaf.getDefault())
